@@ -153,7 +153,8 @@ def _apply_perm(lines, perm):
 @st.composite
 def _order_cases(draw, ctx):
     c = draw(G.chart_specs(max_segments=ctx.pick(8, 16), max_tracks=2, min_tracks=1,
-                           max_notes=ctx.pick(10, 20), max_events=6, max_ts=4, min_notes=2))
+                           max_notes=ctx.pick(10, 20), max_events=6, max_ts=4, min_notes=2,
+                           with_layout=False))
     secs = S.sections_of(c["spec"])
     mode = draw(st.sampled_from(["sorted", "partial", "partial", "shuffled", "shuffled"]))
     shuffle_sync = draw(st.integers(0, 4)) == 0
